@@ -143,7 +143,7 @@ func genAdv(prop string) func(rt *rapid.T) interface{} {
 			sc.LegitOps = 0
 			nconn = rapid.IntRange(1, 2).Draw(rt, "nconn")
 			kinds = append(kinds, advSetup...)
-			kinds = append(kinds, "ps-degenerate-chain", "ps-degenerate-chain", "ps-degenerate-chain", "ps-m1", "ps-m1", "ps-m3-right", "ps-m3-right", "ps-m5-genuine", "ps-m5-zero", "ps-m5-nilk", "ps-m3-a0", "ps-m5-weak", "ps-m5-weak", "ps-twin-race", "ps-twin-race")
+			kinds = append(kinds, "ps-degenerate-chain", "ps-degenerate-chain", "ps-degenerate-chain", "ps-m1", "ps-m1", "ps-m3-right", "ps-m3-right", "ps-m5-genuine", "ps-m5-zero", "ps-m5-nilk", "ps-m3-a0", "ps-m5-weak", "ps-m5-weak", "ps-twin-race", "ps-twin-race", "ps-replay-honest-setup", "ps-replay-honest-setup")
 		case "C03":
 			sc.KnowsKey = rapid.IntRange(0, 2).Draw(rt, "key") != 0
 			if rapid.IntRange(0, 4).Draw(rt, "unpaired") == 0 {
@@ -257,6 +257,7 @@ type advWorld struct {
 	legitErr        string
 	appDone         bool
 	capturedM5      []byte // encrypted-data value of the legitimate controller's M5
+	capturedSetup   [][]byte // the bodies of the legitimate controller's three pair-setup requests
 	capturedPVM3    []byte // TLV body of the legitimate controller's verify finish
 	capturedPVM1    []byte // TLV body of its verify start
 	snapshotCalls   int
@@ -539,6 +540,28 @@ func (aw *advWorld) do(p *peerConn, op AdvOp) *advResult {
 		}
 		w.Sim.Count("probe.degenerate_chain")
 		return aw.do(p, m5)
+	case "ps-replay-honest-setup":
+		// an observer replays the legitimate controller's whole recorded pair-setup (start, verify
+		// request, key exchange) byte for byte on its own connection: the accessory's side of the
+		// exchange is fresh, so neither the proof nor the key exchange may be accepted again
+		if len(aw.capturedSetup) != 3 {
+			return aw.do(p, AdvOp{Conn: p.slot, Kind: "ps-m5-replay", Arg: op.Arg})
+		}
+		w.Sim.Count("probe.recorded_pair_setup_replayed")
+		for i, body := range aw.capturedSetup {
+			*r = advResult{Op: op}
+			p.post("/pair-setup", ref.CTypeTLV, body, r)
+			if p.dead {
+				break
+			}
+			if i == 1 && aw.on("C02") && r.TLV != nil && tlvErr(r.TLV) == 0 && len(r.TLV[ref.TagProof]) > 0 {
+				aw.violate("proof-for-replayed-m3", "the recorded verify request of another exchange, replayed on a new connection, was answered with the accessory's proof")
+			}
+			if i == 2 && aw.on("C02") && r.TLV != nil && tlvErr(r.TLV) == 0 && len(r.TLV[ref.TagEncrypted]) > 0 {
+				aw.violate("m6-for-forged-m5", "the recorded key exchange of another exchange, replayed on a new connection, was answered with the accessory's encrypted key-exchange response")
+			}
+		}
+		p.m3rightOK, p.setupClean, p.srp, p.salt, p.B = false, false, nil, nil, nil
 	case "ps-twin-race":
 		// The accessory files a connection (and its pair-setup controller) under the remote ip:port.
 		// A peer that binds two sockets to one local ip:port and connects them to two addresses of a
@@ -1216,6 +1239,21 @@ func runAdv(t *testing.T, sci interface{}) *Outcome {
 					aw.requiredStore[aw.legitID] = aw.legitKP.Pub
 					// what an on-path observer saw of M5
 					aw.capturedM5 = lastTLVItem(w.Sim.Conns[c.ID].Sent[0], ref.TagEncrypted)
+					rest := w.Sim.Conns[c.ID].Sent[0]
+					var bodies [][]byte
+					for {
+						n := httpRequestLen(rest)
+						if n <= 0 {
+							break
+						}
+						if i := bytes.Index(rest[:n], []byte("\r\n\r\n")); i >= 0 {
+							bodies = append(bodies, append([]byte(nil), rest[i+4:n]...))
+						}
+						rest = rest[n:]
+					}
+					if len(bodies) == 3 {
+						aw.capturedSetup = bodies
+					}
 				}
 				aw.allowedVerified[c.ID] = true
 				cl.OnSend = func(b []byte) {
